@@ -112,6 +112,23 @@ type model struct {
 	body []mitem
 }
 
+// payload memoises the encoded image of a generated Img (pure function of the value).
+var payloadCache = map[gen.Img][]byte{}
+
+func payload(im gen.Img) []byte {
+	key := im
+	key.Name = ""
+	if b, ok := payloadCache[key]; ok {
+		return b
+	}
+	if len(payloadCache) > 4096 {
+		payloadCache = map[gen.Img][]byte{}
+	}
+	b := im.Bytes()
+	payloadCache[key] = b
+	return b
+}
+
 func hashOf(b []byte) string {
 	h := sha256.Sum256(b)
 	return hex.EncodeToString(h[:])
@@ -420,7 +437,7 @@ func analyze(c Case) analysis {
 // It returns the picture the step adds (nil if none) and whether the step was applicable.
 func (m *model) apply(s Step, i int) (*pic, bool) {
 	mk := func(src string, size Size) *pic {
-		b := s.Img.Bytes()
+		b := payload(*s.Img)
 		return &pic{hash: hashOf(b), n: len(b), w: s.Img.W, h: s.Img.H, format: s.Img.Fmt, size: size, src: src, name: s.Img.Name, op: i}
 	}
 	sel := func(k, n int) int {
